@@ -659,7 +659,13 @@ func (p *Program) runEntry(ec EntryCfg, workers int, solverBin string, logDir st
 				if len(res.PathSamples) < 5 && pr.kind == endDone {
 					res.PathSamples = append(res.PathSamples, fmt.Sprintf("decisions=%v asserts=%d steps=%d", pr.trace, pr.asserts, pr.steps))
 				}
-				stop := res.Paths >= maxPaths || time.Now().After(deadline) || len(res.Violations) >= 8
+				hard := map[string]bool{}
+				for _, v := range res.Violations {
+					if v.Known == "" {
+						hard[v.Msg] = true
+					}
+				}
+				stop := res.Paths >= maxPaths || time.Now().After(deadline) || len(hard) >= 4 || len(res.Violations) >= 400
 				needSample := len(res.Samples) < wantSamples
 				rmu.Unlock()
 				_ = needSample
@@ -670,7 +676,7 @@ func (p *Program) runEntry(ec EntryCfg, workers int, solverBin string, logDir st
 						p.stopped = true
 						if len(p.work) > 0 || p.active > 0 {
 							rmu.Lock()
-							if len(res.Violations) < 8 {
+							if len(hard) < 4 {
 								res.Inconclusive = append(res.Inconclusive, fmt.Sprintf("budget: stopped after %d paths, %d prefixes pending", res.Paths, len(p.work)))
 							}
 							rmu.Unlock()
